@@ -40,6 +40,7 @@ const gcPrelude = `package main
 import (
 	"fmt"
 	"runtime"
+	"strconv"
 	"strings"
 	"sync"
 )
@@ -47,6 +48,7 @@ import (
 type hT struct{}
 
 func (hT) Gosched()                        { runtime.Gosched() }
+func (hT) Itoa(n int) string               { return strconv.Itoa(n) }
 func (hT) Send(ch chan int, x int)         { ch <- x }
 func (hT) SendMul(ch chan int, a, b int)   { ch <- a * b }
 func (hT) SendSum(ch chan int, xs ...int) {
@@ -148,14 +150,18 @@ func traceText(model string) (string, string) {
 
 func runC14(c *hx.Ctx) error {
 	res := c.Res
-	res.Rule = "generated concurrent programs: main composed of 1-3 shapes (pipeline with 0-2 stages, fan-in whose parent changes the passed variables after each go, WaitGroup-like counting over a channel with one shared cell per worker, several producers plus a closer goroutine and range, select over two feeders with choice-independent sum), channels unbuffered or buffered 1-3, Gosched calls at random places; each run by Scriggo under GOMAXPROCS 1/2/4/8 several times and compared with gc's output of the same source and with the Lean source-level and VM-level evaluators under random schedules. Non-trivial: every program (each starts at least one goroutine); distinct by source"
+	res.Rule = "generated concurrent programs: main composed of 1-3 shapes (pipeline with 0-2 stages, fan-in whose parent changes the passed variables after each go, WaitGroup-like counting over a channel with one shared cell per worker, several producers plus a closer goroutine and range, select over two feeders with choice-independent sum; native functions started with go / called right after / deferred), and programs whose go statements pass int, float64, string and []int arguments in every mixture from frames with 0-3 live locals of each register class, several go statements per frame, in nested calls, the caller changing the passed locals afterwards (gc is their only oracle); channels unbuffered or buffered 1-3, Gosched calls at random places; each run by Scriggo under GOMAXPROCS 1/2/4/8 several times and compared with gc's output of the same source and with the Lean source-level and VM-level evaluators under random schedules. Non-trivial: every program (each starts at least one goroutine); distinct by source"
 	if c.Replay != "" {
 		return replayC14(c)
 	}
-	n := c.N(300, 2500)
+	n := c.N(360, 3000)
 	var progs []*program
 	for i := 0; i < n; i++ {
-		progs = append(progs, genProgram(c.R))
+		if i%3 == 2 {
+			progs = append(progs, genMixed(c.R))
+		} else {
+			progs = append(progs, genProgram(c.R))
+		}
 	}
 	want, err := gcBatch(progs)
 	if err != nil {
